@@ -1012,6 +1012,22 @@ class Interp:
                        carrier="bare")
         if n in ("max", "min"):
             return self.taintdeg(raw(alld, deg=join(args).deg if args else {}), cx)
+        if n == "reduce" and len(args) >= 2:
+            # functools.reduce(f, xs[, init]): two abstract folding steps, joined (like a loop body run twice)
+            f, xs = args[0], args[1]
+            el = self.elem_of(xs) if xs.k in ("list", "dict") else xs
+            acc = args[2] if len(args) > 2 else el
+            outs = [acc]
+            for _ in range(2):
+                if f.k == "lambda":
+                    acc = self.call_closure(f, [acc, el], {}, cx)
+                elif f.k == "meth" and f.meths:
+                    acc = join([self.inline(cn, owner, m, is_self, [acc, el], {}, cx, e) for cn, owner, m, is_self in f.meths])
+                else:
+                    cx.unknown.append(f"reduce with a function the analyser cannot follow in {where[1]}")
+                    return raw(alld, deg={})
+                outs.append(acc)
+            return join(outs)
         if n in ("map", "zip", "enumerate", "filter"):
             els = [a.elem for a in args if a.k == "list" and a.elem is not None]
             return V("list", elem=join(els) if els else raw(alld), deps=alld)
